@@ -8,3 +8,15 @@ import "net"
 func VerifConnWithOneByte(conn net.Conn, b byte) net.Conn {
 	return &connWithOneByte{Conn: conn, b: b}
 }
+
+// verifListenFake, when set by a test, replaces the creation of base listeners.
+var verifListenFake func(network, address string) (net.Listener, error)
+
+// verifListen is what the instrumented copy of manager.go (tools/hv/props/C18.py) calls
+// instead of correctnet.Listen: the real function unless a fake is installed.
+func verifListen(real func(network, address string) (net.Listener, error), network, address string) (net.Listener, error) {
+	if verifListenFake != nil {
+		return verifListenFake(network, address)
+	}
+	return real(network, address)
+}
